@@ -111,6 +111,15 @@ def parse_strace(path, main):
     return ev
 
 
+def kill_points(events):
+    """event number -> (syscall name, ordinal of that event among the events of the same syscall)."""
+    cnt, out = {}, {}
+    for e in events:
+        cnt[e['sc']] = cnt.get(e['sc'], 0) + 1
+        out[e['n']] = (e['sc'], cnt[e['sc']])
+    return out
+
+
 def validate_io(events, scratch):
     """strace log -> CheckpointIO.tla.  Returns (fails, TLCResult)."""
     path = os.path.join(scratch, 'io_trace.json')
@@ -133,7 +142,7 @@ def validate_io(events, scratch):
 
 def kill_at(args):
     """Run the child, kill it at the N-th traced system call, inspect what is left."""
-    cfg, base, n, snaps_digests, do_resume = args
+    cfg, base, n, snaps_digests, do_resume, sc, k = args
     from .h5walk import content_digest
     d = os.path.join(base, 'kill_%05d' % n)
     os.makedirs(d, exist_ok=True)
@@ -141,11 +150,12 @@ def kill_at(args):
     json.dump(cfg, open(cfgpath, 'w'))
     main = os.path.join(d, 'ck.h5')
     cmd = ['strace', '-f', '-o', '/dev/null', '-e', 'trace=' + TRACE_SET,
-           '-e', 'inject=%s:signal=SIGKILL:when=%d' % (TRACE_SET, n),
+           # strace counts invocations PER SYSCALL: kill at the k-th invocation of syscall sc (= event n of the log)
+           '-e', 'inject=%s:signal=SIGKILL:when=%d' % (sc, k),
            '-P', main, '-P', main + '.tmp'] + child_cmd(cfgpath, d, 'kill')
     p = subprocess.run(cmd, cwd=common.VERIF, env=_env(), stdout=subprocess.PIPE, stderr=subprocess.STDOUT,
                        text=True, timeout=900)
-    out = dict(n=n, killed=False, completed=0, problem=None, detail='', resumed=None)
+    out = dict(n=n, sc=sc, k=k, killed=False, completed=0, problem=None, detail='', resumed=None)
     prog = []
     pp = os.path.join(d, 'progress.log')
     if os.path.exists(pp):
